@@ -233,3 +233,41 @@ B('pkgL_b_pump_object_rebinds_attribute', ['C20'], 'R20.e',
        "                self.files = literal_eval(line_text[len(_MON_PREFIX):])\n            else:\n"
        "                sys.stderr.write(line_text)\n                self.buff.append(line_text)\n\n\n"
        "def restart_with_reloader(error_func=None):\n"))
+_ATTEMPT = ("def _attempt(func, default):\n    try:\n        return func()\n    except BaseException:\n        return default\n\n\n"
+            "def get_flaw_info(tb_str,")
+T('pkgL_t_callable_run_under_catch_all', ['C20'],
+  (FL, _TRY, "    parsed_error = _attempt(lambda: _ParsedTB.from_string(traceback_string).to_dict(), {})\n"),
+  (FL, _LAST, "    last_line = _attempt(lambda: tb_str.splitlines()[-1], u'Unknown error')\n"),
+  (FL, "def get_flaw_info(tb_str,", _ATTEMPT))
+B('pkgL_b_callable_runner_lets_errors_out', ['C20'], 'R20.b',
+  (FL, _TRY, "    parsed_error = _attempt(lambda: _ParsedTB.from_string(traceback_string).to_dict(), {})\n"),
+  (FL, "def get_flaw_info(tb_str,", _ATTEMPT.replace('except BaseException:', 'except ValueError:')))
+_ATTEMPT_ARGS = ("def _attempt(func, *args, **kwargs):\n    default = kwargs.pop('default', None)\n    try:\n        return func(*args)\n"
+                 "    except BaseException:\n        return default\n\n\ndef get_flaw_info(tb_str,")
+T('pkgL_t_callable_runner_with_star_args', ['C20'],
+  (FL, _TRY, "    parsed_error = _attempt(lambda: _ParsedTB.from_string(traceback_string).to_dict(), default={})\n"),
+  (FL, _LAST, "    last_line = _attempt(lambda text: text.splitlines()[-1], tb_str, default=u'Unknown error')\n"),
+  (FL, "def get_flaw_info(tb_str,", _ATTEMPT_ARGS))
+B('pkgL_b_callable_runner_with_star_args_leaks', ['C20'], 'R20.b',
+  (FL, _TRY, "    parsed_error = _attempt(lambda: _ParsedTB.from_string(traceback_string).to_dict(), default={})\n"),
+  (FL, "def get_flaw_info(tb_str,", _ATTEMPT_ARGS.replace('except BaseException:', 'except (ValueError, IndexError):')))
+T('pkgL_t_resources_zipped_routes_starred', ['C20'],
+  (FL, "_ASSET_PATH = os.path.join(_CUR_PATH, '_clastic_assets')\n", "_ASSET_PATH = os.path.join(_CUR_PATH, '_clastic_assets')\n_RESOURCE_NAMES = ('tb_str', 'parsed_error', 'all_mon_files', 'mon_files')\n"),
+  (FL, _RESOURCES, "    values = (traceback_string, parsed_error, monitored_files, non_site_files)\n    resources = dict(zip(_RESOURCE_NAMES, values))\n"),
+  (FL, _ROUTES, "    first, last = [(pattern, get_flaw_info, 'flaw_tmpl') for pattern in ('/', '/<_ignored*>')]\n"
+                "    middle = [('/clastic_assets/', StaticApplication(_ASSET_PATH))]\n    routes = [first, *middle, last]\n"))
+T('pkgL_t_function_reference_to_runner', ['C20'],
+  (FL, _TRY, "    parsed_error = _attempt(_parse_to_dict, traceback_string, default={})\n"),
+  (FL, "def get_flaw_info(tb_str,", "def _parse_to_dict(text):\n    return _ParsedTB.from_string(text).to_dict()\n\n\n" + _ATTEMPT_ARGS))
+B('pkgL_b_function_reference_runner_leaks', ['C20'], 'R20.b',
+  (FL, _TRY, "    parsed_error = _attempt(_parse_to_dict, traceback_string, default={})\n"),
+  (FL, "def get_flaw_info(tb_str,", "def _parse_to_dict(text):\n    return _ParsedTB.from_string(text).to_dict()\n\n\n" + _ATTEMPT_ARGS.replace('except BaseException:', 'except ValueError:')))
+T('pkgL_t_sort_guard_as_and_chain', ['C20'],
+  (FL, "    if monitored_files:\n        monitored_files.sort(key=lambda x: len(x))\n", "    monitored_files and monitored_files.sort(key=len)\n"))
+T('pkgL_t_routes_zipped_with_targets', ['C20'],
+  (FL, "_ASSET_PATH = os.path.join(_CUR_PATH, '_clastic_assets')\n", "_ASSET_PATH = os.path.join(_CUR_PATH, '_clastic_assets')\n_ROUTE_PATTERNS = ('/', '/clastic_assets/', '/<_ignored*>')\n"),
+  (FL, _ROUTES, "    page = (get_flaw_info, 'flaw_tmpl')\n    targets = (page, (StaticApplication(_ASSET_PATH),), page)\n"
+                "    routes = [(pattern, *target) for pattern, target in zip(_ROUTE_PATTERNS, targets)]\n"))
+T('pkgL_t_routes_sliced_pages', ['C20'],
+  (FL, _ROUTES, "    pages = [(pattern, get_flaw_info, 'flaw_tmpl') for pattern in ('/', '/<_ignored*>')]\n"
+                "    routes = [*pages[:1], ('/clastic_assets/', StaticApplication(_ASSET_PATH)), *pages[1:]]\n"))
